@@ -331,3 +331,18 @@ pub fn grammar(args: &[String]) {
     });
     s.print();
 }
+
+/// `vh ndl raw <yaml file>`: parse + elaborate one description given as YAML text (debugging aid)
+pub fn raw(args: &[String]) {
+    let text = std::fs::read_to_string(&args[0]).expect("file");
+    let parsed = catch_unwind(AssertUnwindSafe(|| serde_yml::from_str::<Def>(&text)));
+    match parsed {
+        Err(_) => println!("{}", json!({"parse": "panic"})),
+        Ok(Err(e)) => println!("{}", json!({"parse": "error", "err": e.to_string()})),
+        Ok(Ok(def)) => match catch_unwind(AssertUnwindSafe(|| transform(&def).map(|_| ()))) {
+            Err(_) => println!("{}", json!({"parse": "ok", "transform": "panic"})),
+            Ok(Err(e)) => println!("{}", json!({"parse": "ok", "transform": "error", "err": format!("{e:?}")})),
+            Ok(Ok(())) => println!("{}", json!({"parse": "ok", "transform": "ok"})),
+        },
+    }
+}
